@@ -16,6 +16,7 @@ def run(ck):
     n = checked.check_rows(ck, w, 'C10.R1', tables.C10_DECODERS)
     ck.floor('C10.R1', 'decoder/validator obligations', n, 15)
     r2_strict(ck, w)
+    eval_nesting(ck, w, 'C10', 'C10.N1')
 
 
 def mentions_modulus(n):
@@ -139,3 +140,101 @@ def r2_strict(ck, w):
         ck.record('C10.R2', f'{xid}:strict', not problems, f'strict, form(s) {sorted(set(forms))}',
                   f'{xid}: ' + '; '.join(problems), hirq.fn_loc(f))
     ck.floor('C10.R2', 'modulus validators', n, 5)
+
+
+# ---------------------------------------------------------------- nesting profile (shared with C11)
+def nesting_profile(f):
+    """{operation: sorted list of branch depths of its sites}; operation = resolved callee of a call / method call / overloaded operator"""
+    from ..core import children
+    prof = {}
+
+    def rec(n, d):
+        k = n.get('k')
+        if k in ('call', 'mcall') and ('f' in n or 'rs' in n):
+            c = callee(n)
+            if c and not c.startswith(('core::fmt', 'core::panicking', 'std::panicking', 'core::option::Option::Some', 'core::result::Result::Ok')):
+                prof.setdefault(c, []).append(d)
+        elif k in ('bin', 'assignop', 'un') and n.get('f'):
+            prof.setdefault((n.get('f') or '') + ':' + str(n.get('op')), []).append(d)
+        if k == 'if':
+            rec(n['c'], d)
+            rec(n['a'], d + 1)
+            if 'b' in n:
+                rec(n['b'], d + 1)
+            return
+        if k == 'match' and n.get('src') == 'match':
+            rec(n['e'], d)
+            for a in n['arms']:
+                if 'guard' in a:
+                    rec(a['guard'], d + 1)
+                rec(a['body'], d + 1)
+            return
+        for c2 in children(n):
+            rec(c2, d)
+    rec(f['body'], 0)
+    return {k2: sorted(v) for k2, v in prof.items()}
+
+
+def profile_dominates(cur, ref):
+    """every reference site still exists at the same or a shallower branch depth (sites may be added or hoisted, not removed or pushed into a branch)"""
+    cur = sorted(cur)
+    for i, d in enumerate(sorted(ref)):
+        if i >= len(cur) or cur[i] > d:
+            return False
+    return True
+
+
+def curves_scope(file, prop):
+    c11 = any(x in file for x in ('/g1.rs', '/g2.rs', 'curve.rs', 'curve25519/affine.rs', 'hash_to_curve', 'derive/curve', '/gt.rs', 'pairing'))
+    return (prop == 'C11') == c11
+
+
+def mine_nesting(w, config):
+    rows = []
+    from collections import Counter
+    seen = Counter(f['_xid'] for f in w.all_fns(['curves']))
+    for f in w.all_fns(['curves']):
+        if '::tests::' in f['_nid'] or '/tests' in f['file'] or f['file'].endswith('tests.rs'):
+            continue
+        if seen[f['_xid']] > 1:
+            continue            # several impls print the same id (operator impls for T and &T): not addressable, skipped
+        prop = 'C11' if curves_scope(f['file'], 'C11') else 'C10'
+        for op, depths in sorted(nesting_profile(f).items()):
+            rows.append(dict(property=prop, config=config, fn=f['_xid'], op=op, depths=depths))
+    return rows
+
+
+def eval_nesting(ck, w, prop, rule):
+    import json, os
+    from .. import facts
+    path = os.path.join(facts.VERIF, 'rules', 'nesting.json')
+    rows = [r for r in json.load(open(path)) if r['property'] == prop and r['config'] == ck.config]
+    ck.rule(rule, 'branch-nesting profile of the arithmetic code (rules/nesting.json, mined per feature configuration): for every function of the curves crate in '
+                  'the scope of this property and every operation it performs (resolved callee, overloaded operator), each site of the reference tree still '
+                  'exists at the same or a shallower branch depth.  Field and curve formulas are straight-line code taken from the literature; a step that '
+                  'disappears, or that moves under an `if` / into one `match` arm, changes the formula on the other paths.  Added and hoisted steps never fire; '
+                  'the arithmetic itself (operands, constants) is NOT decided.')
+    byfn = {}
+    for r in rows:
+        byfn.setdefault(r['fn'], []).append(r)
+    n = 0
+    missing = 0
+    for fx, rs in sorted(byfn.items()):
+        f = w.fn_x(fx, required=False)
+        if f is None:
+            missing += 1
+            ck.bad(rule, f'{fx}:anchor', f'function {fx} of the nesting table not found (renamed/removed: needs triage)')
+            continue
+        cur = nesting_profile(f)
+        bad = []
+        for r in rs:
+            n += 1
+            if not profile_dominates(cur.get(r['op'], []), r['depths']):
+                bad.append((r['op'], r['depths'], cur.get(r['op'], [])))
+        if bad:
+            for op, ref, now in bad[:4]:
+                ck.bad(rule, f'{fx}|{short(op)}', f'{fx}: `{op}` had sites at branch depths {ref} on the reference tree and has {now} now: a step of the formula was '
+                       f'removed or moved under a condition', hirq.fn_loc(f))
+        else:
+            ck.ok(rule, f'{fx}', f'{len(rs)} operations keep their sites', hirq.fn_loc(f))
+    ck.floor(rule, 'operation profiles', n, 1000 if prop == 'C10' else 600)
